@@ -2801,6 +2801,12 @@ def _transition_to_absent(
 ) -> None:
     """Remove any type of entry."""
     if current_stat is None:
+        # Nothing left on disk (the user already deleted it), but the path
+        # still has to leave the index, as it does in git.
+        try:
+            del index[path]
+        except KeyError:
+            pass
         return
 
     if stat.S_ISDIR(current_stat.st_mode):
